@@ -1,1 +1,575 @@
-/- C11 — property theorems (to be written) -/
+/-
+  C11 — arithmetic on boxes and on fibers agrees with arithmetic on the values.
+  Property theorems only; helper lemmas live in FtProofs/Lemmas/Arith.lean.
+
+  Part A is polymorphic in the value algebra `Alg ν ε` (ints, floats, … — whatever the
+  underlying Python operators do, including raising), Part B in the leaf values `ν` (with the
+  algebraic laws a statement needs as explicit hypotheses) and, where only order matters, in the
+  coordinates.
+-/
+import FtProofs.Lemmas.Arith
+set_option linter.unusedSectionVars false
+set_option linter.unusedSimpArgs false
+set_option linter.unusedVariables false
+namespace Ft
+open StrictTotal Arith
+
+/-! ## Part A — boxes and elements -/
+
+section
+variable {ν ε : Type} (A : Alg ν ε)
+
+/-- **Operator table (partial).** For every operator × operand-kind combination in
+    `binSupported` (at least one operand a box or an element), the expression evaluates to a box
+    holding the result of the same operator on the underlying values — or raises exactly what the
+    value operator raises.  The combinations outside `binSupported` are the gap, see
+    `box_op_unsupported_raises`. -/
+theorem box_op_table_partial (op : BinOp) (ka kb : Kind) (x y : ν)
+    (hk : ¬ (ka = .S ∧ kb = .S)) (h : binSupported op ka kb = true) :
+    pyBin A op ka kb x y = binSpec A op x y := by
+  cases op <;> cases ka <;> cases kb <;>
+    simp_all [binSupported, pyBin, binSpec, opPS, opSP, opPP, opES, opSE, opEE, opEP, opPE,
+      Kind.hasOp, Kind.hasROp, Res.rebox_rebox]
+
+/-- The gap of `box_op_table_partial` is exact: every other combination raises TypeError today
+    (`//` everywhere; `/` and `<< & |` with a scalar on the left or an element on either side). -/
+theorem box_op_unsupported_raises (op : BinOp) (ka kb : Kind) (x y : ν)
+    (hk : ¬ (ka = .S ∧ kb = .S)) (h : binSupported op ka kb = false) :
+    pyBin A op ka kb x y = .typeError := by
+  cases op <;> cases ka <;> cases kb <;>
+    simp_all [binSupported, pyBin, opPS, opSP, opPP, opES, opSE, opEE, opEP, opPE,
+      Kind.hasOp, Kind.hasROp, Res.rebox]
+
+/-- **Comparison table (full).** All six comparisons, all operand-kind combinations: the result
+    is the comparison of the underlying values, given the one law of the value order that
+    Python's reflected dispatch relies on (`y > x` is `x < y`, …). -/
+theorem box_cmp_table (hsw : ∀ c x y, A.cmp c.swap y x = A.cmp c x y)
+    (c : CmpOp) (ka kb : Kind) (x y : ν) : pyCmp A c ka kb x y = A.cmp c x y := by
+  cases ka <;> cases kb <;>
+    simp [pyCmp, cmpSS, cmpPS, cmpSP, cmpPP, cmpES, cmpSE, cmpEE, cmpEP, cmpPE, hsw]
+
+/-- **In-place forms (partial).** For the combinations in `iopSupported` (`+= -= *=` on a box or
+    an element with any right operand; `<<=` on a box from a box or scalar) the statement leaves
+    the name bound to the same object whose box now holds the operator's result (`<<=`: the new
+    value), or raises what the value operator raises and changes nothing. -/
+theorem inplace_same_ref_partial (i : IOp) (ka kb : Kind) (x y : ν)
+    (h : iopSupported i ka kb = true) : pyIop A i ka kb x y = iopSpec A i x y := by
+  cases i <;> cases ka <;> cases kb <;>
+    simp_all [iopSupported, pyIop, iopP, iopE, iopSpec, IOp.bin, opSS, opSE, opSP,
+      Kind.hasOp, Kind.hasROp] <;>
+    (split <;> simp_all [Res.rebox, Res.store])
+
+/-- `<<=` on a box replaces its value (right operand a box or a scalar) and keeps the box. -/
+theorem ilshift_replaces_partial (kb : Kind) (x y : ν) (hkb : kb ≠ .E) :
+    pyIop A .ishl .P kb x y = .done .same (.val y) := by
+  cases kb <;> simp_all [pyIop, iopP]
+
+/-- Today's `CoordPayload.__ilshift__`: from an element it assigns but the statement rebinds the
+    name to `None`; from anything else it *adds* (and rebinds to `None`). -/
+theorem today_elem_ilshift (x y : ν) :
+    pyIop A .ishl .E .E x y = .done .none (.val y) ∧
+    (∀ kb v, kb ≠ .E → A.bin .add x y = .ok v → pyIop A .ishl .E kb x y = .done .none (.val v)) := by
+  refine ⟨by simp [pyIop, iopE], ?_⟩
+  intro kb v hkb hv
+  cases kb <;>
+    simp_all [pyIop, iopE, pyBin, opPS, opPP, opSS, Kind.hasOp, Res.rebox, Res.storeNone]
+
+/-- Today's `Payload.__ilshift__` given an element stores the element object, not its value. -/
+theorem today_box_ilshift_from_elem (x y : ν) :
+    pyIop A .ishl .P .E x y = .done .same .elemObj := by
+  simp [pyIop, iopP]
+
+/-- Today `/=` on an element raises TypeError (the class only has the Python 2 name `__idiv__`). -/
+theorem today_elem_idiv_raises (kb : Kind) (x y : ν) : pyIop A .idiv .E kb x y = .typeError := by
+  cases kb <;>
+    simp [pyIop, iopE, pyBin, opES, opEE, opEP, Kind.hasOp, Kind.hasROp, Res.rebox, Res.fallback]
+
+end
+
+/-! ### non-vacuity of Part A: an integer algebra -/
+namespace C11
+
+/-- `+ - *` and the comparisons of `Int`; `/` raising on a zero divisor (exact quotients only) -/
+def intAlg : Alg Int String where
+  bin := fun op x y =>
+    match op with
+    | .add => .ok (x + y)
+    | .sub => .ok (x - y)
+    | .mul => .ok (x * y)
+    | .div => if y = 0 then .error "ZeroDivisionError" else .ok (x / y)
+    | .fdiv => if y = 0 then .error "ZeroDivisionError" else .ok (Int.fdiv x y)
+    | _ => .error "not modelled"
+  cmp := fun c x y =>
+    match c with
+    | .eq => decide (x = y) | .ne => decide (x ≠ y) | .lt => decide (x < y)
+    | .le => decide (x ≤ y) | .gt => decide (x > y) | .ge => decide (x ≥ y)
+
+theorem intAlg_swap : ∀ c x y, intAlg.cmp (CmpOp.swap c) y x = intAlg.cmp c x y := by
+  intro c x y
+  cases c <;> simp [intAlg, CmpOp.swap, eq_comm]
+
+example : pyBin intAlg .sub .S .E 12 5 = .boxed 7 :=
+  box_op_table_partial intAlg .sub .S .E 12 5 (by decide) (by decide)
+example : pyBin intAlg .div .P .S 12 0 = .raised "ZeroDivisionError" :=
+  box_op_table_partial intAlg .div .P .S 12 0 (by decide) (by decide)
+example : pyBin intAlg .div .S .P 12 5 = .typeError :=
+  box_op_unsupported_raises intAlg .div .S .P 12 5 (by decide) (by decide)
+example : pyCmp intAlg .lt .S .E 4 5 = true := by
+  rw [box_cmp_table intAlg intAlg_swap]; decide
+example : pyIop intAlg .imul .E .P 12 5 = .done .same (.val 60) :=
+  inplace_same_ref_partial intAlg .imul .E .P 12 5 (by decide)
+example : pyIop intAlg .ishl .E .S 12 5 = .done .none (.val 17) :=
+  (today_elem_ilshift intAlg 12 5).2 .S 17 (by decide) rfl
+
+end C11
+
+/-! ## Part B — fibers -/
+
+section
+variable {κ ν : Type} [LT κ] [DecidableRel (α := κ) (· < ·)] [DecidableEq κ] [StrictTotal κ]
+variable [DecidableEq ν]
+
+/-- **Fiber + fiber is the elementwise sum over the union of coordinates** (any depth, any
+    default): at every point the dense view of `a + b` is the sum of the operands' dense views
+    wherever either operand is non-default (the other side contributing its default), and the
+    default elsewhere. -/
+theorem fiber_add_spec [Add ν] (dflt : ν) : ∀ (d : Nat) (a b : Tree κ ν (d + 1)),
+    WF (d + 1) a → WF (d + 1) b → ∀ p : List κ,
+    denseAt dflt (d + 1) (addT dflt (d + 1) a b) p =
+      addExpect dflt (denseAt dflt (d + 1) a p) (denseAt dflt (d + 1) b p) := by
+  intro d
+  induction d with
+  | zero =>
+    intro a b ha hb p
+    cases p with
+    | nil => simp [denseAt_nil, addExpect]
+    | cons c q =>
+      have hsa := ((WF_succ 0 a).1 ha).1
+      have hsb := ((WF_succ 0 b).1 hb).1
+      rw [denseAt_cons, lookup_addT dflt 0 a b ha hb c,
+        ← denseAt_present dflt 0 a hsa c q, ← denseAt_present dflt 0 b hsb c q]
+      by_cases hcond : (lookup (present dflt 0 a) c).isSome = true ∨ (lookup (present dflt 0 b) c).isSome = true
+      · rw [if_pos hcond]
+        apply addT_leaf
+        rcases hcond with h | h
+        · left
+          obtain ⟨t, ht⟩ := Option.isSome_iff_exists.1 h
+          rw [ht]; exact ne_of_not_isEmpty_zero dflt t (not_isEmpty_of_lookup_present ht)
+        · right
+          obtain ⟨t, ht⟩ := Option.isSome_iff_exists.1 h
+          rw [ht]; exact ne_of_not_isEmpty_zero dflt t (not_isEmpty_of_lookup_present ht)
+      · rw [if_neg hcond]
+        have h1 : lookup (present dflt 0 a) c = none := by
+          cases h : lookup (present dflt 0 a) c with
+          | none => rfl
+          | some _ => exact absurd (Or.inl (by simp [h])) hcond
+        have h2 : lookup (present dflt 0 b) c = none := by
+          cases h : lookup (present dflt 0 b) c with
+          | none => rfl
+          | some _ => exact absurd (Or.inr (by simp [h])) hcond
+        simp [h1, h2, denseAt_dfltTree, addExpect]
+  | succ d ih =>
+    intro a b ha hb p
+    cases p with
+    | nil => simp [denseAt_nil, addExpect]
+    | cons c q =>
+      have hsa := ((WF_succ (d + 1) a).1 ha).1
+      have hsb := ((WF_succ (d + 1) b).1 hb).1
+      rw [denseAt_cons, lookup_addT dflt (d + 1) a b ha hb c,
+        ← denseAt_present dflt (d + 1) a hsa c q, ← denseAt_present dflt (d + 1) b hsb c q]
+      by_cases hcond : (lookup (present dflt (d + 1) a) c).isSome = true ∨
+          (lookup (present dflt (d + 1) b) c).isSome = true
+      · rw [if_pos hcond]
+        exact ih _ _ (WF_getD_present ha c) (WF_getD_present hb c) q
+      · rw [if_neg hcond]
+        have h1 : lookup (present dflt (d + 1) a) c = none := by
+          cases h : lookup (present dflt (d + 1) a) c with
+          | none => rfl
+          | some _ => exact absurd (Or.inl (by simp [h])) hcond
+        have h2 : lookup (present dflt (d + 1) b) c = none := by
+          cases h : lookup (present dflt (d + 1) b) c with
+          | none => rfl
+          | some _ => exact absurd (Or.inr (by simp [h])) hcond
+        simp [h1, h2, denseAt_dfltTree, addExpect]
+
+/-- **Fiber * fiber is the elementwise product over the intersection of coordinates** (any
+    depth, any default): the dense view of `a * b` is the product of the operands' dense views
+    where both are non-default, and the default elsewhere. -/
+theorem fiber_mul_spec [Mul ν] (dflt : ν) : ∀ (d : Nat) (a b : Tree κ ν (d + 1)),
+    WF (d + 1) a → WF (d + 1) b → ∀ p : List κ,
+    denseAt dflt (d + 1) (mulT dflt (d + 1) a b) p =
+      mulExpect dflt (denseAt dflt (d + 1) a p) (denseAt dflt (d + 1) b p) := by
+  intro d
+  induction d with
+  | zero =>
+    intro a b ha hb p
+    cases p with
+    | nil => simp [denseAt_nil, mulExpect]
+    | cons c q =>
+      have hsa := ((WF_succ 0 a).1 ha).1
+      have hsb := ((WF_succ 0 b).1 hb).1
+      rw [denseAt_cons, lookup_mulT dflt 0 a b ha hb c]
+      cases h1 : lookup (present dflt 0 a) c with
+      | none => simp [denseAt_not_presented dflt 0 a hsa c q h1, mulExpect_left]
+      | some x =>
+        cases h2 : lookup (present dflt 0 b) c with
+        | none => simp [denseAt_not_presented dflt 0 b hsb c q h2, mulExpect_right]
+        | some y =>
+          rw [denseAt_presented dflt 0 a hsa c q x h1, denseAt_presented dflt 0 b hsb c q y h2]
+          exact mulT_leaf dflt x y q
+            ⟨ne_of_not_isEmpty_zero dflt x (not_isEmpty_of_lookup_present h1),
+             ne_of_not_isEmpty_zero dflt y (not_isEmpty_of_lookup_present h2)⟩
+  | succ d ih =>
+    intro a b ha hb p
+    cases p with
+    | nil => simp [denseAt_nil, mulExpect]
+    | cons c q =>
+      have hsa := ((WF_succ (d + 1) a).1 ha).1
+      have hsb := ((WF_succ (d + 1) b).1 hb).1
+      rw [denseAt_cons, lookup_mulT dflt (d + 1) a b ha hb c]
+      cases h1 : lookup (present dflt (d + 1) a) c with
+      | none => simp [denseAt_not_presented dflt (d + 1) a hsa c q h1, mulExpect_left]
+      | some x =>
+        cases h2 : lookup (present dflt (d + 1) b) c with
+        | none => simp [denseAt_not_presented dflt (d + 1) b hsb c q h2, mulExpect_right]
+        | some y =>
+          rw [denseAt_presented dflt (d + 1) a hsa c q x h1, denseAt_presented dflt (d + 1) b hsb c q y h2]
+          exact ih x y (WF_of_lookup_present ha h1) (WF_of_lookup_present hb h2) q
+
+/-- **What `a += b` does, pointwise** (any depth, any default): the right operand's value is
+    added wherever the right operand is non-default; everything else is untouched. -/
+theorem fiber_iadd_dense [Add ν] (dflt : ν) : ∀ (d : Nat) (a b : Tree κ ν (d + 1)),
+    WF (d + 1) a → WF (d + 1) b → ∀ p : List κ,
+    denseAt dflt (d + 1) (iaddT dflt (d + 1) a b) p =
+      iaddExpect dflt (denseAt dflt (d + 1) a p) (denseAt dflt (d + 1) b p) := by
+  intro d
+  induction d with
+  | zero =>
+    intro a b ha hb p
+    cases p with
+    | nil => simp [denseAt_nil, iaddExpect]
+    | cons c q =>
+      have hsb := ((WF_succ 0 b).1 hb).1
+      cases h2 : lookup (present dflt 0 b) c with
+      | none =>
+        rw [denseAt_cons, lookup_iaddT_none dflt 0 a b ha hb c h2,
+          denseAt_not_presented dflt 0 b hsb c q h2, iaddExpect_dflt, denseAt_cons]
+      | some vb =>
+        rw [denseAt_cons', lookup_iaddT_some dflt 0 a b ha hb c vb h2,
+          denseAt_presented dflt 0 b hsb c q vb h2, ← denseAt_getD_lookup dflt 0 a c q]
+        exact iaddT_leaf dflt (lookup (show List (κ × Tree κ ν 0) from a) c).isNone
+          ((lookup (show List (κ × Tree κ ν 0) from a) c).getD (dfltTree dflt 0)) vb q
+          (ne_of_not_isEmpty_zero dflt vb (not_isEmpty_of_lookup_present h2))
+  | succ d ih =>
+    intro a b ha hb p
+    cases p with
+    | nil => simp [denseAt_nil, iaddExpect]
+    | cons c q =>
+      have hsb := ((WF_succ (d + 1) b).1 hb).1
+      cases h2 : lookup (present dflt (d + 1) b) c with
+      | none =>
+        rw [denseAt_cons, lookup_iaddT_none dflt (d + 1) a b ha hb c h2,
+          denseAt_not_presented dflt (d + 1) b hsb c q h2, iaddExpect_dflt, denseAt_cons]
+      | some vb =>
+        rw [denseAt_cons', lookup_iaddT_some dflt (d + 1) a b ha hb c vb h2,
+          denseAt_presented dflt (d + 1) b hsb c q vb h2, ← denseAt_getD_lookup dflt (d + 1) a c q]
+        have hih := ih _ vb (WF_getD_lookup (dflt := dflt) ha c) (WF_of_lookup_present hb h2) q
+        by_cases hrem : removeAfter dflt (d + 1)
+            (lookup (show List (κ × Tree κ ν (d + 1)) from a) c).isNone
+            (iaddT dflt (d + 1) ((lookup (show List (κ × Tree κ ν (d + 1)) from a) c).getD
+              (dfltTree dflt (d + 1))) vb) = true
+        · rw [if_pos hrem, optDense_none, ← hih]
+          have hnil : (show List (κ × Tree κ ν d) from
+              (iaddT dflt (d + 1) ((lookup (show List (κ × Tree κ ν (d + 1)) from a) c).getD
+                (dfltTree dflt (d + 1))) vb)) = [] := by
+            simp only [removeAfter, Bool.and_eq_true] at hrem
+            exact List.isEmpty_iff.1 hrem.2
+          exact (denseAt_nil_fiber dflt d _ hnil q).symm
+        · rw [if_neg hrem, optDense_some]
+          exact hih
+
+/-- **In-place sum = value-returning sum (partial).** When the default is a right identity of
+    `+` (the usual default 0), `a += b` leaves `a` with the dense view of `a + b`.
+    Without that hypothesis the two differ on points only `a` stores (`a + b` adds `b`'s default
+    there, `a += b` does not): see `today_fiber_iadd_ne_add_witness`. -/
+theorem fiber_iadd_eq_add_partial [Add ν] (dflt : ν) (hr : ∀ x : ν, x + dflt = x)
+    (d : Nat) (a b : Tree κ ν (d + 1)) (ha : WF (d + 1) a) (hb : WF (d + 1) b) (p : List κ) :
+    denseAt dflt (d + 1) (iaddT dflt (d + 1) a b) p =
+      denseAt dflt (d + 1) (addT dflt (d + 1) a b) p := by
+  rw [fiber_iadd_dense dflt d a b ha hb p, fiber_add_spec dflt d a b ha hb p]
+  simp only [iaddExpect, addExpect]
+  by_cases hy : denseAt dflt (d + 1) b p = dflt
+  · by_cases hx : denseAt dflt (d + 1) a p = dflt
+    · simp [hx, hy]
+    · simp [hx, hy, hr]
+  · simp [hy]
+
+/-! ### `*=` with a fiber -/
+
+/-- **In-place product = value-returning product (partial).** If every coordinate `a` presents
+    is also presented by `b` (`hcovB`, executable), `a *= b` leaves `a` with the dense view of `a * b` (any depth, any
+    default).  Without the hypothesis it does not: `today_fiber_imul_keeps_unmatched`. -/
+theorem fiber_imul_eq_mul_partial [Mul ν] (dflt : ν) (d : Nat) (a b : Tree κ ν (d + 1))
+    (ha : WF (d + 1) a) (hb : WF (d + 1) b)
+    (hcovB : (present dflt d a).all (fun e => hasCoord (present dflt d b) e.1) = true)
+    (p : List κ) :
+    denseAt dflt (d + 1) (imulT dflt d a b) p = denseAt dflt (d + 1) (mulT dflt (d + 1) a b) p := by
+  have hcov : ∀ c, (lookup (present dflt d a) c).isSome = true →
+      (lookup (present dflt d b) c).isSome = true := by
+    intro c hc
+    obtain ⟨t, ht⟩ := Option.isSome_iff_exists.1 hc
+    have := List.all_eq_true.1 hcovB (c, t) (mem_of_lookup ht)
+    rwa [hasCoord_iff_lookup] at this
+  cases p with
+  | nil => rw [denseAt_nil, denseAt_nil]
+  | cons c q =>
+    have hsa := ((WF_succ d a).1 ha).1
+    rw [denseAt_cons', denseAt_cons', lookup_imulT dflt d a b ha hb c, lookup_mulT dflt d a b ha hb c,
+      lookup_present dflt d a hsa c]
+    cases hl : lookup (show List (κ × Tree κ ν d) from a) c with
+    | none => rfl
+    | some x =>
+      by_cases he : isEmpty dflt d x = true
+      · have hx : denseAt dflt d x q = dflt := denseAt_of_isEmpty dflt d x q he
+        cases lookup (present dflt d b) c <;> simp [Option.filter, he, optDense, hx]
+      · have hpa : lookup (present dflt d a) c = some x := by
+          rw [lookup_present dflt d a hsa c, hl]; simp [Option.filter, he]
+        have := hcov c (by simp [hpa])
+        obtain ⟨y, hy⟩ := Option.isSome_iff_exists.1 this
+        have hwx : WF d x := WF_of_lookup ha hl
+        have hwy : WF d y := WF_of_lookup_present hb hy
+        simp only [hy, Option.filter, he, Bool.not_false, if_true, Bool.false_eq_true, if_false,
+          optDense_some]
+        simp [optDense, denseAt_nonEmpty dflt d _ (mulT_WF dflt d x y hwx hwy) q]
+
+/-- **Today's `*=` keeps what it does not match**: at a coordinate `b` does not present, `a`'s
+    element survives `a *= b` unchanged, while `a * b` has nothing there. -/
+theorem today_fiber_imul_keeps_unmatched [Mul ν] (dflt : ν) (d : Nat) (a b : Tree κ ν (d + 1))
+    (ha : WF (d + 1) a) (hb : WF (d + 1) b) (c : κ) (hnb : lookup (present dflt d b) c = none) :
+    lookup (show List (κ × Tree κ ν d) from imulT dflt d a b) c =
+      lookup (show List (κ × Tree κ ν d) from a) c ∧
+    lookup (show List (κ × Tree κ ν d) from mulT dflt (d + 1) a b) c = none := by
+  constructor
+  · rw [lookup_imulT dflt d a b ha hb c, hnb]
+    cases lookup (show List (κ × Tree κ ν d) from a) c <;> rfl
+  · rw [lookup_mulT dflt d a b ha hb c, hnb]
+    cases lookup (present dflt d a) c <;> rfl
+
+end
+
+/-! ### fiber ∘ scalar (leaf fibers, integer coordinates) -/
+
+section
+variable {ν : Type} [DecidableEq ν]
+
+/-- **Fiber + scalar adds over the whole shape**: inside `[0, n)` every coordinate — stored or
+    not — holds `s +` the operand's dense value; outside the shape the result stores nothing. -/
+theorem fiber_scalar_add [Add ν] (dflt s : ν) (n : Nat) (f : Fib Int ν) (c : Int) :
+    denseAt dflt 1 (leafFiber (saddF dflt s n f)) [c] =
+      if 0 ≤ c ∧ c < (n : Int) then s + denseAt dflt 1 (leafFiber f) [c] else dflt := by
+  rw [denseAt_leaf, denseAt_leaf]
+  unfold saddF
+  rw [lookup_range_map (fun i => s + (lookup f (i : Int)).getD dflt) n c]
+  by_cases h : 0 ≤ c ∧ c < (n : Int)
+  · rw [if_pos h, if_pos h, Int.toNat_of_nonneg h.1]; rfl
+  · rw [if_neg h, if_neg h]; rfl
+
+/-- **Fiber * scalar scales the stored (non-default) elements** and stores nothing else. -/
+theorem fiber_scalar_mul [Mul ν] (dflt s : ν) (f : Fib Int ν) (hs : Sorted f) (c : Int) :
+    denseAt dflt 1 (leafFiber (smulF dflt s f)) [c] =
+      if denseAt dflt 1 (leafFiber f) [c] ≠ dflt
+      then s * denseAt dflt 1 (leafFiber f) [c] else dflt := by
+  rw [denseAt_leaf, denseAt_leaf]
+  unfold smulF
+  rw [lookup_map_val (f.filter (fun e => !decide (e.2 = dflt))) (fun _ v => s * v) c,
+    lookup_filter_val hs (fun v => !decide (v = dflt)) c]
+  cases hl : lookup f c with
+  | none => simp [Option.filter]
+  | some v =>
+    by_cases hv : v = dflt
+    · simp [Option.filter, hv]
+    · simp [Option.filter, hv]
+
+/-- what `f += s` does: inside the shape every coordinate gets `+ s` (absent ones are created
+    from the default); coordinates outside the shape are left alone -/
+theorem fiber_scalar_iadd_dense [Add ν] (dflt s : ν) (n : Nat) (f : Fib Int ν) (hs : Sorted f) (c : Int) :
+    denseAt dflt 1 (leafFiber (isaddF dflt s n f)) [c] =
+      if 0 ≤ c ∧ c < (n : Int) then denseAt dflt 1 (leafFiber f) [c] + s
+      else denseAt dflt 1 (leafFiber f) [c] := by
+  rw [denseAt_leaf, denseAt_leaf, (lookup_isaddF dflt s n f hs).2 c]
+  by_cases h : 0 ≤ c ∧ c < (n : Int)
+  · rw [if_pos h, if_pos h]; rfl
+  · rw [if_neg h, if_neg h]
+
+/-- what `f *= s` does: the stored non-default values are scaled in place -/
+theorem fiber_scalar_imul_dense [Mul ν] (dflt s : ν) (f : Fib Int ν) (c : Int) :
+    denseAt dflt 1 (leafFiber (ismulF dflt s f)) [c] =
+      if denseAt dflt 1 (leafFiber f) [c] ≠ dflt
+      then denseAt dflt 1 (leafFiber f) [c] * s
+      else denseAt dflt 1 (leafFiber f) [c] := by
+  rw [denseAt_leaf, denseAt_leaf]
+  have hmap : ismulF dflt s f = f.map (fun e => (e.1, (fun _ v => if v = dflt then v else v * s) e.1 e.2)) := by
+    unfold ismulF
+    apply List.map_congr_left
+    intro e _
+    obtain ⟨k, v⟩ := e
+    by_cases hv : v = dflt <;> simp [hv]
+  rw [hmap, lookup_map_val f (fun _ v => if v = dflt then v else v * s) c]
+  cases hl : lookup f c with
+  | none => simp
+  | some v =>
+    by_cases hv : v = dflt
+    · simp [hv]
+    · simp [hv]
+
+/-- **`f += s` = `f + s` (partial)**: when every coordinate of `f` lies inside the shape and `s`
+    commutes with the values (`+` evaluates `s + v`, `+=` evaluates `v + s`). -/
+theorem fiber_scalar_iadd_eq_add_partial [Add ν] (dflt s : ν) (n : Nat) (f : Fib Int ν) (hs : Sorted f)
+    (hcomm : ∀ v : ν, s + v = v + s) (hin : inShapeB n f = true) (c : Int) :
+    denseAt dflt 1 (leafFiber (isaddF dflt s n f)) [c] =
+      denseAt dflt 1 (leafFiber (saddF dflt s n f)) [c] := by
+  rw [fiber_scalar_iadd_dense dflt s n f hs c, fiber_scalar_add dflt s n f c]
+  by_cases h : 0 ≤ c ∧ c < (n : Int)
+  · rw [if_pos h, if_pos h, hcomm]
+  · rw [if_neg h, if_neg h, denseAt_leaf]
+    cases hl : lookup f c with
+    | none => rfl
+    | some v =>
+      exfalso
+      have hm := mem_of_lookup hl
+      have := List.all_eq_true.1 hin (c, v) hm
+      simp only [Bool.and_eq_true, decide_eq_true_eq] at this
+      exact h this
+
+/-- **`f *= s` = `f * s` (partial)**: when `s` commutes with the values. -/
+theorem fiber_scalar_imul_eq_mul_partial [Mul ν] (dflt s : ν) (f : Fib Int ν) (hs : Sorted f)
+    (hcomm : ∀ v : ν, s * v = v * s) (c : Int) :
+    denseAt dflt 1 (leafFiber (ismulF dflt s f)) [c] =
+      denseAt dflt 1 (leafFiber (smulF dflt s f)) [c] := by
+  rw [fiber_scalar_imul_dense dflt s f c, fiber_scalar_mul dflt s f hs c]
+  by_cases h : denseAt dflt 1 (leafFiber f) [c] ≠ dflt
+  · rw [if_pos h, if_pos h, hcomm]
+  · rw [if_neg h, if_neg h]
+    exact Classical.not_not.1 h
+
+end
+/-! ### the executable specifications used by the driver are satisfied by the model -/
+
+section
+variable {κ ν : Type} [LT κ] [DecidableRel (α := κ) (· < ·)] [DecidableEq κ] [StrictTotal κ]
+variable [DecidableEq ν]
+
+/-- the executable pointwise check accepts the model's sum -/
+theorem fiber_add_specB_sound [Add ν] (dflt : ν) (d : Nat) (a b : Tree κ ν (d + 1))
+    (ha : WF (d + 1) a) (hb : WF (d + 1) b) :
+    pointwiseB dflt (d + 1) (addExpect dflt) a b (addT dflt (d + 1) a b) = true := by
+  unfold pointwiseB
+  exact List.all_eq_true.2 (fun p _ => decide_eq_true (fiber_add_spec dflt d a b ha hb p))
+
+/-- the executable pointwise check accepts the model's product -/
+theorem fiber_mul_specB_sound [Mul ν] (dflt : ν) (d : Nat) (a b : Tree κ ν (d + 1))
+    (ha : WF (d + 1) a) (hb : WF (d + 1) b) :
+    pointwiseB dflt (d + 1) (mulExpect dflt) a b (mulT dflt (d + 1) a b) = true := by
+  unfold pointwiseB
+  exact List.all_eq_true.2 (fun p _ => decide_eq_true (fiber_mul_spec dflt d a b ha hb p))
+
+/-- **The executable pointwise check decides the pointwise statement**: checking the stored
+    points of the operands and of the candidate output is enough for all points (of full
+    length), for any expectation that maps two defaults to the default. -/
+theorem pointwiseB_complete (dflt : ν) (d : Nat) (exp : ν → ν → ν) (hexp : exp dflt dflt = dflt)
+    (a b out : Tree κ ν d) (h : pointwiseB dflt d exp a b out = true) (p : List κ) (hp : p.length = d) :
+    denseAt dflt d out p = exp (denseAt dflt d a p) (denseAt dflt d b p) := by
+  unfold pointwiseB at h
+  by_cases hm : p ∈ pointsOf dflt d [a, b, out]
+  · exact of_decide_eq_true (List.all_eq_true.1 h p hm)
+  · have hnot : ∀ t ∈ [a, b, out], denseAt dflt d t p = dflt := by
+      intro t ht
+      apply Classical.byContradiction
+      intro hne
+      apply hm
+      unfold pointsOf
+      exact List.mem_flatMap.2 ⟨t, ht, mem_points_of_dense_ne dflt d t p hp hne⟩
+    rw [hnot a (by simp), hnot b (by simp), hnot out (by simp), hexp]
+
+/-- **Today's `+=` versus `+` with a default that is not a right identity**: on a point only
+    `a` stores, `a += b` keeps `a`'s value while `a + b` adds `b`'s default to it. -/
+theorem today_fiber_iadd_vs_add [Add ν] (dflt : ν) (d : Nat) (a b : Tree κ ν (d + 1))
+    (ha : WF (d + 1) a) (hb : WF (d + 1) b) (p : List κ)
+    (hx : denseAt dflt (d + 1) a p ≠ dflt) (hy : denseAt dflt (d + 1) b p = dflt) :
+    denseAt dflt (d + 1) (iaddT dflt (d + 1) a b) p = denseAt dflt (d + 1) a p ∧
+    denseAt dflt (d + 1) (addT dflt (d + 1) a b) p = denseAt dflt (d + 1) a p + dflt := by
+  rw [fiber_iadd_dense dflt d a b ha hb p, fiber_add_spec dflt d a b ha hb p, hy]
+  simp [iaddExpect, addExpect, hx]
+
+end
+
+/-! ### non-vacuity of Part B: concrete overlapping fibers satisfy every hypothesis -/
+namespace C11
+
+def exA0 : Fib Int Int := [(0, 2), (1, 3), (3, 4)]
+def exB0 : Fib Int Int := [(1, 5), (2, 6)]
+def exC0 : Fib Int Int := [(0, 1), (1, 5), (2, 6), (3, -4)]
+theorem exA0_sorted : Sorted exA0 := by unfold Sorted exA0; decide
+theorem exB0_sorted : Sorted exB0 := by unfold Sorted exB0; decide
+theorem exC0_sorted : Sorted exC0 := by unfold Sorted exC0; decide
+def exA : Tree Int Int 1 := leafFiber exA0
+def exB : Tree Int Int 1 := leafFiber exB0
+def exC : Tree Int Int 1 := leafFiber exC0
+theorem exA_WF : WF 1 exA := (WF_succ 0 exA).2 ⟨exA0_sorted, fun _ _ => trivial⟩
+theorem exB_WF : WF 1 exB := (WF_succ 0 exB).2 ⟨exB0_sorted, fun _ _ => trivial⟩
+theorem exC_WF : WF 1 exC := (WF_succ 0 exC).2 ⟨exC0_sorted, fun _ _ => trivial⟩
+/-- a two-level tree with an empty sub-fiber and an explicit default -/
+def exD : Tree Int Int 2 :=
+  show List (Int × Tree Int Int 1) from [(0, exA), (2, leafFiber []), (5, leafFiber [(1, 0), (4, 7)])]
+theorem exD_WF : WF 2 exD := by
+  refine (WF_succ 1 exD).2 ⟨by unfold Sorted exD; decide, ?_⟩
+  intro e he
+  have he' : e = (0, exA) ∨ e = (2, leafFiber []) ∨ e = (5, leafFiber [(1, 0), (4, 7)]) := by
+    simpa [exD] using he
+  rcases he' with rfl | rfl | rfl
+  · exact exA_WF
+  · exact (WF_succ 0 _).2 ⟨List.Pairwise.nil, fun _ h => by cases h⟩
+  · exact (WF_succ 0 _).2 ⟨by unfold Sorted leafFiber; decide, fun _ _ => trivial⟩
+
+example : ∀ p, denseAt (0 : Int) 1 (addT 0 1 exA exB) p =
+    addExpect 0 (denseAt 0 1 exA p) (denseAt 0 1 exB p) := fiber_add_spec 0 0 exA exB exA_WF exB_WF
+example : ∀ p, denseAt (0 : Int) 2 (addT 0 2 exD exD) p =
+    addExpect 0 (denseAt 0 2 exD p) (denseAt 0 2 exD p) := fiber_add_spec 0 1 exD exD exD_WF exD_WF
+example : ∀ p, denseAt (7 : Int) 1 (mulT 7 1 exA exB) p =
+    mulExpect 7 (denseAt 7 1 exA p) (denseAt 7 1 exB p) := fiber_mul_spec 7 0 exA exB exA_WF exB_WF
+example : ∀ p, denseAt (0 : Int) 2 (iaddT 0 2 exD exD) p =
+    iaddExpect 0 (denseAt 0 2 exD p) (denseAt 0 2 exD p) := fiber_iadd_dense 0 1 exD exD exD_WF exD_WF
+example : ∀ p, denseAt (0 : Int) 1 (iaddT 0 1 exA exB) p = denseAt 0 1 (addT 0 1 exA exB) p :=
+  fiber_iadd_eq_add_partial 0 (by intro x; omega) 0 exA exB exA_WF exB_WF
+/-- the coverage hypothesis of the `*=` theorem is satisfiable with a non-trivial intersection … -/
+example : ∀ p, denseAt (0 : Int) 1 (imulT 0 0 exA exC) p = denseAt 0 1 (mulT 0 1 exA exC) p :=
+  fiber_imul_eq_mul_partial 0 0 exA exC exA_WF exC_WF (by decide)
+/-- … and it fails for `exA`, `exB`: coordinate 0 of `exA` survives `exA *= exB` but is not in `exA * exB`. -/
+example : denseAt (0 : Int) 1 (imulT 0 0 exA exB) [0] = 2 ∧ denseAt (0 : Int) 1 (mulT 0 1 exA exB) [0] = 0 := by
+  have h := today_fiber_imul_keeps_unmatched (0 : Int) 0 exA exB exA_WF exB_WF 0 (by decide)
+  constructor
+  · rw [denseAt_cons', h.1]; decide
+  · rw [denseAt_cons', h.2]; rfl
+/-- default 7: `[(1,3)] += []` keeps 3 at coordinate 1, `[(1,3)] + []` gives 3 + 7 -/
+example : denseAt (7 : Int) 1 (iaddT 7 1 (leafFiber [((1 : Int), (3 : Int))]) (leafFiber [])) [1] = 3 ∧
+    denseAt (7 : Int) 1 (addT 7 1 (leafFiber [((1 : Int), (3 : Int))]) (leafFiber [])) [1] = 3 + 7 := by
+  have hw : WF 1 (leafFiber [((1 : Int), (3 : Int))]) :=
+    (WF_succ 0 _).2 ⟨by unfold Sorted leafFiber; decide, fun _ _ => trivial⟩
+  have hn : WF 1 (leafFiber ([] : Fib Int Int)) :=
+    (WF_succ 0 _).2 ⟨List.Pairwise.nil, fun _ h => by cases h⟩
+  exact today_fiber_iadd_vs_add (7 : Int) 0 _ _ hw hn [1] (by decide) (by decide)
+example : ∀ c, denseAt (0 : Int) 1 (leafFiber (saddF 0 5 4 exA0)) [c] =
+    if 0 ≤ c ∧ c < ((4 : Nat) : Int) then 5 + denseAt 0 1 (leafFiber exA0) [c] else 0 :=
+  fiber_scalar_add 0 5 4 exA0
+example : ∀ c, denseAt (0 : Int) 1 (leafFiber (smulF 0 5 exA0)) [c] =
+    if denseAt 0 1 (leafFiber exA0) [c] ≠ 0 then 5 * denseAt 0 1 (leafFiber exA0) [c] else 0 :=
+  fiber_scalar_mul 0 5 exA0 exA0_sorted
+example : ∀ c, denseAt (0 : Int) 1 (leafFiber (isaddF 0 5 4 exA0)) [c] =
+    denseAt 0 1 (leafFiber (saddF 0 5 4 exA0)) [c] :=
+  fiber_scalar_iadd_eq_add_partial 0 5 4 exA0 exA0_sorted (by intro v; omega) (by decide)
+example : ∀ c, denseAt (0 : Int) 1 (leafFiber (ismulF 0 5 exA0)) [c] =
+    denseAt 0 1 (leafFiber (smulF 0 5 exA0)) [c] :=
+  fiber_scalar_imul_eq_mul_partial 0 5 exA0 exA0_sorted (by intro v; exact Int.mul_comm 5 v)
+
+end C11
+end Ft
